@@ -45,7 +45,9 @@ func compile(t Term, env *Env) (clauses, error) {
 			if err != nil {
 				return nil, typeError(validTypeCallable, body, env)
 			}
-			c.raw = env.simplify(t)
+			if len(cs) == 0 { // The alternatives that follow are the rest of the same clause.
+				c.raw = env.simplify(t)
+			}
 			cs = append(cs, c)
 		}
 		return cs, nil
